@@ -64,9 +64,10 @@ def oracle(ck, n, thorough=False):
             ok, obs, exp = eval_case(cs)
         except Exception as ex:
             ok, obs, exp = False, {'raised': f'{type(ex).__name__}: {ex}'[:300]}, None
+        hyp_tag = common.allcirc_hyp(ck, pickle.loads(base64.b64decode(cs['circuit'])), sorted({cs['wstrip'], cs['lstrip']}), 'C05')
         ck.case(key=(cs['circuit'][:80], cs['dseed'], cs['sseed'], cs['wstrip'], cs['wreuse'], cs['lstrip'], cs['lreuse'], cs['cuda']),
                 sample={k: v for k, v in cs.items() if k != 'circuit'},
-                tag=[f"wstrip:{cs['wstrip']}", f"wreuse:{cs['wreuse']}", f"lstrip:{cs['lstrip']}", f"lreuse:{cs['lreuse']}", f"cuda:{cs['cuda']}", f"caps:{cs['caps']}"])
+                tag=[f"wstrip:{cs['wstrip']}", f"wreuse:{cs['wreuse']}", f"lstrip:{cs['lstrip']}", f"lreuse:{cs['lreuse']}", f"cuda:{cs['cuda']}", f"caps:{cs['caps']}", hyp_tag])
         if not ok:
             ck.violation('logic8-vs-wave', '8-valued logic simulation does not predict the timing simulation', cs, obs, exp)
 
@@ -77,7 +78,8 @@ def run(ck):
     oracle(ck, n, ck.tier == 'thorough')
     if ck.broken and not ck.violations: oracle(ck, n * 5, ck.tier == 'thorough')
     ck.assumptions += ['waveform model tied to wave_eval_cpu by the correspondence of C03; 8-valued dispatch regenerated from the code',
-                       'stimuli over {0,1,R,F} as the property states; X/- are outside']
+                       'stimuli over {0,1,R,F} as the property states; X/- are outside',
+                       'the all-circuits theorems (sim8_predicts_all_circuits, ..._stripped) speak about the rows of the Lean SimOps model; their hypotheses wfB/orderOKB/forksOKB are evaluated by the driver on every real circuit and order (tag allcirc-hyp)']
     return ck.finish(RULE)
 
 
